@@ -204,6 +204,15 @@ func (fc *fnCtx) postName(c effClause, kind string) string {
 }
 
 func (fc *fnCtx) atReturn(st *State, fr *frame, res []Val, ts *TypeSpec) {
+	// vacuity guard: every return statement must be reachable on some path with satisfiable assumptions
+	blk := "?"
+	for i := len(st.trace) - 1; i >= 0; i-- {
+		if strings.HasPrefix(st.trace[i], "b") && !strings.ContainsAny(st.trace[i], "{}(") {
+			blk = st.trace[i]
+			break
+		}
+	}
+	fc.emitQ(st, fc.key+".smoke.return@"+blk, "smoke", "the return statement is reachable under the assumptions", "", "false", nil, true)
 	fc.runDefers(st, fr, func(st *State) {
 		for _, en := range fc.eff.ensures {
 			sc := fc.specCtxForClause(st, fr, en)
